@@ -190,6 +190,14 @@ pub fn run(src: &str, validate_opt: &str) -> Oracle {
         };
         let lit = match &module.global_expressions[c.init] {
             naga::Expression::Literal(l) => literal_json(l),
+            // the constant evaluator leaves `T()` of a scalar type as a zero value: its value is the zero of that type
+            naga::Expression::ZeroValue(zt) => match module.types[*zt].inner {
+                naga::TypeInner::Scalar(sc) => match naga::Literal::zero(sc) {
+                    Some(l) => literal_json(&l),
+                    None => json!({"ty": "", "nonliteral": true}),
+                },
+                _ => json!({"ty": "", "nonliteral": true}),
+            },
             _ => json!({"ty": "", "nonliteral": true}),
         };
         consts.push(json!({"name": c.name.clone().unwrap_or_default(), "named": c.name.is_some(), "ty": tyj, "lit": lit}));
